@@ -627,6 +627,8 @@ nodesLoop:
 			terminating := true
 			var positionOfDefault *ast.Position
 			for _, cas := range node.Cases {
+				// Each clause acts as an implicit block.
+				tc.scopes.Enter(cas)
 				switch comm := cas.Comm.(type) {
 				case nil:
 					if positionOfDefault != nil {
@@ -649,7 +651,8 @@ nodesLoop:
 				case *ast.Send:
 					_ = tc.checkNodes([]ast.Node{comm})
 				}
-				cas.Body = tc.checkNodesInNewScope(node, cas.Body)
+				cas.Body = tc.checkNodes(cas.Body)
+				tc.scopes.Exit()
 				terminating = terminating && tc.terminating
 			}
 			tc.removeLastAncestor()
